@@ -391,10 +391,10 @@ struct Driver {
         strongOp = true;
         insertPoint = sz;
         T &refArg = g.own ? v(a).begin()[g.idx] : *tmp;
+        rvOwn = g.own;
         arm();
         v(a).push_back(std::move(refArg));
         r.push_back(val);
-        rvOwn = g.own;
       } else if (op == "emplace_back") {
         NEED_ALIVE(a);
         Arg g = parseArg(S(2));
@@ -418,6 +418,7 @@ struct Driver {
         if (!g.own && op != "emplace") mkTmp(val);
         strongOp = true;
         insertPoint = p;
+        rvOwn = (op == "insert_rv" && g.own);
         arm();
         typename V::iterator it;
         if (op == "insert") {
@@ -796,7 +797,9 @@ struct Driver {
               fail("C08", "contents changed by an operation that threw " + exn);
             else if (static_cast<long>(v(k).capacity()) != before[k].cap)
               fail("C08", "capacity changed by an operation that threw " + exn);
-          } else if (strongOp && touched[k]) {
+          } else if (strongOp && touched[k] && !(rvOwn && !std::is_nothrow_move_assignable<T>::value)) {
+            // (the strong clause of C09 presupposes noexcept element moves: an own element passed as an rvalue has been moved
+            //  from when growing fails, and can only be given its value back by a move that does not throw)
             if (now != before[k].vals) fail("C09", "strong guarantee: contents changed by failed " + op);
           }
           // basic guarantee: resynchronise the reference with what is left (checked for sanity below)
